@@ -22,6 +22,7 @@ from ser import Ser, Unsupported
 from props import c03 as J
 
 LEAN_MODULE = "Optyx.Props.C17"
+EXTRA_MODULES = ["Optyx.Props.PinsC17"]   # transcription anchors (harness/source_pins.py)
 THEOREMS = [
     "Optyx.Props.Closures.closureTables_agree",
     "Optyx.Props.Closures.sanitizeShape_agrees",
@@ -34,6 +35,7 @@ THEOREMS = [
     "Optyx.Props.C17.hess_symmetric",
     "Optyx.Props.C17.compileHessian_entries",
     "Optyx.Props.C17.compileHessian_true_second_partial",
+    "Optyx.Props.PinsC17.anchors",
 ]
 ASSUMPTIONS = [
     "second derivatives are stated relative to Py.grad (∂/∂V_j of the expression Py.grad V_i e); turning them into the "
